@@ -67,6 +67,10 @@ func main() {
 		*prop, replayKey = r.Property, r.Key
 		*noEvidence = true
 	}
+	if *prop == "all" {
+		// convenience for scratch copies: every property on one load, no evidence, summary only
+		os.Exit(runAll(*repo, *verif))
+	}
 	pr, ok := rules.Registry[*prop]
 	if !ok {
 		fmt.Fprintf(os.Stderr, "BROKEN: no rules for property %q\n", *prop)
@@ -161,4 +165,42 @@ func run(pr *rules.Property, prop, tier, repo, verif string, seed int, verbose b
 	expl := "Static analysis of /repo's current source (type-checked AST + go/ssa + call graph). Decides structural NECESSARY conditions of " +
 		prop + " — not the behaviour itself. " + strings.TrimSpace(pr.Explanation)
 	return c.Finish(verif, seed, t0, expl, pr.Assumptions, selftestResults)
+}
+
+func runAll(repo, verif string) int {
+	p, err := core.Load(repo, 20)
+	if err != nil {
+		fmt.Fprintf(os.Stderr, "BROKEN: %v\n", err)
+		return 2
+	}
+	var ids []string
+	for id := range rules.Registry {
+		ids = append(ids, id)
+	}
+	sort.Strings(ids)
+	rc := 0
+	for _, id := range ids {
+		c := core.NewCtx(p, id, "quick")
+		func() {
+			defer func() {
+				if r := recover(); r != nil {
+					fmt.Printf("%s BROKEN: checker panic: %v\n", id, r)
+					rc = 2
+				}
+			}()
+			rules.Registry[id].Run(c)
+		}()
+		bad := 0
+		for _, o := range c.Obls {
+			if o.Status != core.Discharged {
+				bad++
+				fmt.Printf("%s %s %s %s :: %s\n    %s\n", id, o.Rule, o.Status, o.Pos, o.Func+" :: "+o.Construct, o.Detail)
+			}
+		}
+		fmt.Printf("== %s obligations=%d not-discharged=%d\n", id, len(c.Obls), bad)
+		if bad > 0 && rc == 0 {
+			rc = 1
+		}
+	}
+	return rc
 }
